@@ -174,7 +174,7 @@ CHECKS = {
     ),
     "C04": dict(
         technique="Coq proof over a line-by-line model of the data bookkeeping of update/prepare/compress (invariant by induction over every finite history, tree order of each rebuild an arbitrary permutation; invalidation lemmas) + history-level correspondence: storage, _vertex_order, graph rows and raised flag compared with the extracted model after every operation, the invalidated graph compared entry-for-entry, neighbor_graph and query answers checked against float64 references over the logical dataset",
-        text=("Theorems C04_history_invariant, C04_storage_is_logical_through_vertex_order, C04_graph_rows, C04_argsort_undoes_order, "
+        text=("Theorems C04_history_invariant, C04_storage_is_logical_through_vertex_order, C04_graph_rows, C04_argsort_undoes_order, C04_invalidated_graph_true_for_new_data, C04_update_restarts_from_a_true_graph, "
               "C04_invalidation, C04_replaced_rows_emptied (coq/props/C04.v). Every run: generated histories construct -> "
               "{prepare, query, update(fresh / replace / both), compress, pickle round-trip}* over float and bit-packed metrics, twin-row data, "
               "tree_init and low_memory modes; after every operation _raw_data equals the model's storage (row tokens mapped to vectors), the graph "
@@ -216,13 +216,13 @@ CHECKS = {
     ),
     "C03": dict(
         technique="Coq proof of the exactness clause (one leaf listing every point => after init_rp_tree every row is exact up to distance ties, all sizes, all symmetric finite distance tables) + exact comparison of real single-leaf builds with brute force; the recall floors are statistical and are MEASURED (tie-aware recall against float64 brute force over seeded data families x metrics x build modes), not proved",
-        text=("Theorem C03_single_leaf_exact (coq/props/C03.v), built on the top-k refinement of the heap (C11) and the graph invariant (C01). "
+        text=("Theorems C03_single_leaf_exact, C03_round_keeps_exact, C03_single_leaf_build_exact (coq/props/C03.v: the whole low-memory nn_descent on a single all-covering leaf is exact up to ties), built on the top-k refinement of the heap (C11) and the graph invariant (C01). "
               "Every run: datasets that fit one leaf (gauss / lattice / duplicates / CSR x 6 metrics x low_memory x n_jobs x n_trees) are built "
               "with the real index and every row is compared with the distance table computed by the index's own compiled metric; recall@10 "
               "of neighbor_graph (before and after a query) and of query() is measured for uniform, gaussian, clustered, manifold, sparse and "
               "binary families, including a size that is an exact multiple of the 16384-vertex update block, and compared with 0.90 / 0.80."),
         design_ref="6.3",
-        note=LEVEL_NOTE_COMMON + " PARTIAL: only the single-leaf clause is a theorem (and only up to init_rp_tree; later rounds are covered by C13/C01 and validated, not composed). The 0.90/0.80 floors are measurements on seeded families: a statement 'on average over well-conditioned data' cannot be stated as a theorem about the model; a measured value below the floor is reported as a violation with the configuration as replay.",
+        note=LEVEL_NOTE_COMMON + " PARTIAL: only the single-leaf clause is a theorem (for the low-memory mode through the whole of nn_descent; the high-memory mode and the final per-row sort are validated). The 0.90/0.80 floors are measurements on seeded families: a statement 'on average over well-conditioned data' cannot be stated as a theorem about the model; a measured value below the floor is reported as a violation with the configuration as replay.",
     ),
 }
 
